@@ -18,7 +18,7 @@ class Event:
     failed = False
 
     @classmethod
-    def create(cls, _name, *args, **kwargs):
+    def create(cls, _name, /, *args, **kwargs):
         return type(cls)(_name, (cls,), {})(*args, **kwargs)
 
     def child(self, name, *args, **kwargs):
